@@ -26,7 +26,8 @@ Proof.
   destruct (negb (is_nil (stages s0))); [reflexivity|]. cbn [negb andb].
   destruct (flushing s0) eqn:Ef.
   - assert (Hw := wait_closed s0 wo1 H0 Hc0). rewrite Ef in Hw. specialize (Hw ltac:(discriminate)).
-    destruct (wait s0 wo1) as [s1 r]. cbn [snd] in Hw; subst r. reflexivity.
+    destruct (wait s0 wo1) as [s1 r]. cbn [snd] in Hw; subst r. unfold err_resp.
+    destruct (perr s1); [destruct (flushing s1) as [[? ?]|]|]; reflexivity.
   - set (s2 := start_flush s0).
     assert (Hi : inflight s0 = false).
     { destruct (inflight s0) eqn:E; [|reflexivity]. destruct (sh_inflight _ H0 E); congruence. }
@@ -34,7 +35,8 @@ Proof.
     assert (Hc2 : closed s2 = true) by exact Hc0.
     unfold flush_wait. replace (flushing s2) with (Some (gen s0 + 1, mem s0)) by reflexivity.
     assert (Hw := wait_closed s2 wo2 H2 Hc2 ltac:(discriminate)).
-    destruct (wait s2 wo2) as [s3 r]. cbn [snd] in Hw; subst r. reflexivity.
+    destruct (wait s2 wo2) as [s3 r]. cbn [snd] in Hw; subst r. unfold err_resp.
+    destruct (perr s3); [destruct (flushing s3) as [[? ?]|]|]; reflexivity.
 Qed.
 
 Lemma failed_txn_stays_failed P s ops wo1 wo2 :
